@@ -223,6 +223,11 @@ func oracle(p *progSpec, o *obsT, res *okT, er *errT) []hk.Failure {
 		st := docState(p, finalT.Status)
 		content := finalT.Status != 204 && len(finalT.B.Body) > 0
 		readOK := finalT.B.ReadErr == 0
+		if dm != nil && dlevel == "cli" && !resent && finalT.Fail == 0 && finalT.Status == 401 && finalT.Challenge != "good" {
+			// the client-level digest middleware (first in the chain since e430ccb) failed on the
+			// challenge: resp.Err is set before the binding step, which then cannot obtain the body
+			readOK = false
+		}
 		// C3
 		wantRes := p.TResult && o.Present && st == 0 && content && readOK && !um[0]
 		if o.Result != wantRes {
@@ -363,7 +368,9 @@ func oracle(p *progSpec, o *obsT, res *okT, er *errT) []hk.Failure {
 			}
 		}
 		if has(o.Log, la, "send", 0) {
-			respStage(at.T, true)
+			// a client-level digest middleware runs before the built-in binding (e430ccb): when it
+			// re-sends, the 401 itself is never unmarshalled
+			respStage(at.T, !(resent && dlevel == "cli"))
 		}
 		if resent {
 			respStage(finalT, false)
@@ -391,7 +398,6 @@ func oracle(p *progSpec, o *obsT, res *okT, er *errT) []hk.Failure {
 				}
 			}
 		}
-		_ = dlevel
 		if stale { // the response (and its Err) of the previous attempt is what the caller holds
 			pa := p.Attempts[la-1]
 			may = append(may, pa.T.Fail, pa.T.B.ReadErr, pa.T.B.UmErr, eUnmarshal, pa.GetBody)
